@@ -159,6 +159,7 @@ def run_property(prop, tier, seed):
                 if prop.nontrivial(b, name, lines, io):
                     nontrivial += 1
             why = None
+            hidden = None
             if b.compare:
                 dis = prop.agree(b, name, lines, mout, io)
                 if dis is None:
@@ -169,16 +170,21 @@ def run_property(prop, tier, seed):
                     nbad += 1
                     if prop.spec_is_oracle and not dis.startswith("HIDDEN:"):
                         why = "the implementation's observations differ from the Sodium semantics: " + dis
-                    elif corr_fail is None:
-                        corr_fail = (b, name, lines, mout.get(name, ["MISSING"]), io)
+                    else:
+                        hidden = (b, name, lines, mout.get(name, ["MISSING"]), io)
             why = why or prop.oracle(b, name, lines, io)
+            known = False
             if why:
                 cls = prop.known_class(b, name, lines, io, why)
                 if cls and (pid, cls) in listed:
+                    known = True
                     if len(known_hits) < 50:
                         known_hits.append((cls, name, why))
                 elif oracle_fail is None:
                     oracle_fail = (b, name, lines, io, why)
+            # a hidden-state disagreement on a script that fails with a listed known finding belongs to that finding
+            if hidden is not None and not known and corr_fail is None:
+                corr_fail = hidden
         if len(samples) < 6 and b.scripts:
             n0, l0 = b.scripts[len(b.scripts) // 2]
             samples.append({"batch": b.label, "script": l0[:40], "impl_last": iout.get(n0, [""])[-1][:300]})
@@ -273,7 +279,7 @@ def run_property(prop, tier, seed):
         "print_assumptions_closed": pr.get("closed", []),
         "evaluations": evaluations, "distinct_nontrivial": nontrivial,
         "traces_validated_against_impl": traces_validated,
-        "inconclusive_order_search_budget_exhausted": inconclusive,
+        "inconclusive_scripts (order-search budget exhausted, or outside the heap model's fragment)": inconclusive,
         "rule": prop.rule, "samples": samples, "batches": batch_stats,
         "exhaustive": all(b["exhaustive"] for b in batch_stats) if batch_stats else False,
         "known_findings_hit": sorted(seen_cls),
